@@ -135,9 +135,15 @@ class Lattice:
         """make env consistent: th := 4 atan(t) / 2 atan(u)  (env: name -> mp number)"""
         import mpmath as mp
         if self.kind == "quarter":
-            env[self.name] = 4 * mp.atan(env[self.name + "_t"])
+            k = self.name + "_t"
+            if k not in env:
+                env[k] = mp.tan(env[self.name] / 4)
+            env[self.name] = 4 * mp.atan(env[k])
         else:
-            env[self.name] = 2 * mp.atan(env[self.name + "_u"])
+            k = self.name + "_u"
+            if k not in env:
+                env[k] = mp.tan(env[self.name] / 2)
+            env[self.name] = 2 * mp.atan(env[k])
 
 
 # ---- meaning of the series keys ---------------------------------------------------------------
@@ -197,3 +203,6 @@ SERIES_KEYS = [
     "(x^2 + x sin(x) + 4 cos(x) - 4)/(2 x^6)", "(2 - 2 cos(x) - x sin(x))/(2 x^4))",
     "tan(x/4)/x", "4 atan(x)/x",
 ]
+
+# tan(pi/4 - 0.0005) rounded up: |u| <= this  <=  |pitch| <= pi/2 - 1e-3 (u = tan(pitch/2))
+PI_TAN_BAND = Fraction(999000499666874868, 10 ** 18)
